@@ -82,6 +82,10 @@ CLAIMS["C03"] = ("exploration",
     "stateful PBT over programs on auto-refreshing containers (injected render clock racing with early refresh, and a real ticker): the last chunk written before Wait returned is parsed by row tags and compared with a reference end-state model (who remains, final state, on-complete/on-abort decorations), getters after Wait must agree with it, and no write may follow Wait",
     "one output Write = one frame; the end-state model is derived from the program only (first terminal event wins); runs with cancel/Shutdown judge only rows of bars that finished by themselves; hangs are left to C01",
     "model-based stateful property testing (rapid): final-frame oracle against a reference end-state model")
+CLAIMS["C04"] = ("exploration",
+    "stateful PBT over clocked frame sequences on byte buffers and real ptys of generated sizes; every chunk is interpreted by a VT100-subset emulator and screen+scrollback must equal the persisted lines followed by the rows of the frame (which rows persist: reference frame model); model-free checks that no running bar's row is scrolled off, nothing wraps, no unexpected control sequence, no output before the render delay ends or on non-refreshing non-terminal containers",
+    "the VT emulator (LF implies CR, CUU clamps, ED, autowrap, scrollback) is trusted base; resize is not modelled; exact for manual refresh with one client",
+    "model-based stateful property testing (rapid) against a reference terminal interpreter")
 CLAIMS["C06"] = ("exploration",
     "stateful PBT over clocked histories of adds, priority changes (immediate, lazy, extreme values), completions, queued successors and pop mode; every frame's top-to-bottom order is judged by a validity predicate against the effective priorities of a reference frame model",
     "exact only for manual refresh with one client and n<=q (the render clock is owned by the harness); ties and the frame after a lazy change accept any order",
